@@ -392,6 +392,22 @@ def run(ctx):
                          "feature_counts": feats, "catalogue_cases": len(CATALOGUE),
                          "avoidance_rules": ["negate_alias_typed (compiler panic, C16)",
                                              "loop counters / fuel variables never written"]})
+    if ctx.tier == "thorough" and not os.environ.get("VERIF_NO_SANITIZER_LANE"):
+        # AddressSanitizer lane (deciding here): a memory error of the interpreter on an accepted program is a failure
+        # outside the ones the statement allows.
+        from .. import sanitize
+        progs = [(c[0], {"main.ms": 'print "@@RUN@@"\n' + c[1]}, "main.ms") for c in CATALOGUE]
+        for i in range(1500):
+            text, _, _ = tgen.gen(base + i)
+            progs.append(("seed %d" % (base + i), {"main.ms": text}, "main.ms"))
+        ev, hits = sanitize.asan_lane(progs, env={"MSCRIPT_VERIF_TYPED_PRINT": "1"})
+        ev["verdict"] = "part of the verdict: an AddressSanitizer report on an accepted program is a violation"
+        out.coverage["asan_lane"] = ev
+        for hit in hits:
+            kind, frame = hit["report"]
+            out.violations.append(core.Violation("C02:asan:%s:%s" % (kind, frame), "AddressSanitizer: %s in %s" % (kind, frame),
+                                                 {"files": hit["files"], "case": hit["name"], "class": "memory_error",
+                                                  "detail": hit["err_tail"]}))
     out.rule = ("programs = boundary catalogue (%d hand-written cases of typing rules) + seeded type-directed programs "
                 "(classes, aliases, helper functions, typed variable pool, statements in module/function/closure/method/"
                 "constructor/loop/branch contexts). Monitors: every accepted program must end ok or with a language-defined "
